@@ -6,7 +6,7 @@ Import ListNotations.
 From CA Require Import Model.Lexer Model.Parser Model.Literal Model.BigIntOps Model.Evaluator Model.Matcher Model.Resolver
   Model.Resolver2 Model.StaticKnown Model.ResolverS Model.ResolverS2 Spec.StaticSpec
   Proofs.ResolverFixP Proofs.CertUniqueP Proofs.StaticKnownP Proofs.ResolverSSimP Proofs.ResolverSPreP
-  Proofs.Resolver2FixP Proofs.Resolver2MonoP Proofs.Resolver2TopP Proofs.ResolverS2P Proofs.ResolverS2PreP Proofs.ResolverSTopP.
+  Proofs.Resolver2FixP Proofs.Resolver2MonoP Proofs.Resolver2TopP Proofs.ResolverS2P Proofs.ResolverS2PreP Proofs.ResolverSTopP Proofs.C01Sound Proofs.MatcherKindP.
 From CA Require Model.Paths Model.Overlap Model.Cursor Model.LastPass Model.Output Model.Symbols.
 Open Scope Z_scope.
 
@@ -139,3 +139,137 @@ Lemma nth_error_combine {A B} (l : list A) (l' : list B) j a b :
 Proof.
   revert l' j. induction l as [|x l IH]; intros [|y l'] [|j] H1 H2; cbn in *; try discriminate; [congruence|auto].
 Qed.
+
+(* ---------- whole runs ---------- *)
+Definition set_iters (r : result) (n : nat) : result :=
+  mkResult (r_bits r) (r_items r) (r_banks r) (r_syms r) n (r_nodes r).
+
+Definition outF2 (m : Symbols.mgr) (banks : list Cursor.bank) (ns : list cnode) (F : ores (state * nat)) : ores result :=
+  match F with
+  | Err => Err | Panic => Panic
+  | Ok (st, n) =>
+    match out_nodes st ns with
+    | Err => Err | Panic => Panic
+    | Ok vs =>
+      match Output.output_stage (Z.to_N max_bits) banks vs with
+      | Err => Err | Panic => Panic
+      | Ok (bits, items) => Ok (mkResult bits items banks (symbol_values m st) n vs)
+      end
+    end
+  end.
+Definition outT2 (m : Symbols.mgr) (banks : list Cursor.bank) (ns : list cnode) (T : ores (sstate * nat)) : ores result :=
+  outF2 m banks ns (match T with Ok (x, n) => Ok (ss x, n) | Err => Err | Panic => Panic end).
+
+Lemma lockstep2_out m banks ns F T : lockstep2 F T -> outT2 m banks ns T = outF2 m banks ns F.
+Proof. unfold lockstep2, outT2. destruct F as [[st n]| |]; [intros (x' & -> & <-); reflexivity|intros ->; reflexivity|intros ->; reflexivity]. Qed.
+
+Section Runs2.
+Variable indexed : bool.
+Variable defs : list ruledef.
+Variable ps : list pnode.
+Variables ac pc opt : bool.
+Variable m : Symbols.mgr.
+Variable ns : list cnode.
+Hypothesis Hprep : prepare ps = Some (m, ns).
+Hypothesis Hres : reserved_free2 m.
+Hypothesis Hok : forall w d e c, In (XData w d e, c) ns -> data_known e = true -> elem_strict_ok w e = true.
+Hypothesis Hflags : opt = true -> ac = true /\ pc = true.
+Hypothesis Hasm : opt = true -> forall s d0 e c, In (XConst s d0 e, c) ns -> asm_call_free e = true.
+Hypothesis Hpats : opt = true -> C01Sound.pats_ok defs = true.
+Variable st0 : state.
+Hypothesis Hinit : init_state2 indexed defs (length (Symbols.m_decls m)) ns = Some st0.
+
+Let ictx := map snd (flat_map inode ns).
+Let K := known_info2 ac pc defs m ictx ns st0.
+
+Lemma HKsym2 : forall r, nth_error (k_sym K) r = Some true -> exists d0 e c, In (XConst r d0 e, c) ns /\ const_known e = true.
+Proof. intros r H. exact (ksym_spec2 _ _ _ H). Qed.
+
+Lemma HKdata2 : forall w d e c, In (XData w d e, c) ns -> flag (k_data K) d = true -> data_known e = true.
+Proof.
+  intros w d e c Hin H. destruct (prepare_facts _ _ _ Hprep) as (_ & _ & _ & (nd & Hd) & _).
+  destruct (data_aligned2 data_known ns w d e c Hin) as (j & H1 & H2). rewrite Hd in H1. apply nth_error_seq_inv' in H1. cbn in H1. subst j.
+  unfold K, known_info2 in H. cbn [k_data] in H. unfold flag in H. rewrite H2 in H. exact H.
+Qed.
+
+Lemma Hcan2 : opt = true -> canonical2 ns.
+Proof. intros _. exact (proj1 (prepare_facts _ _ _ Hprep)). Qed.
+
+Lemma init2_shape : s_sym st0 = repeat VUnknown (length (Symbols.m_decls m)) /\
+  s_instr st0 = map (fun src => {| i_matches := match_instr indexed defs src;
+                                   i_enc := mk 0 (Some (Z.to_N (fold_left (fun a x => Z.max a (match match_static_size defs x with Some s => s | None => 0 end)) (match_instr indexed defs src) 0))) |})
+                    (flat_map (fun n => match fst n with XInstr _ src => [src] | _ => [] end) ns).
+Proof.
+  revert Hinit. unfold init_state2. cbv zeta.
+  match goal with |- (if ?q then _ else _) = _ -> _ => destruct q; [discriminate|] end.
+  intro H. inversion H; subst; clear H. cbn [s_sym s_instr s_data]. split; reflexivity.
+Qed.
+
+Lemma kinstr0_2 : opt = true -> kinstr_ok2 m defs ns K st0.
+Proof.
+  intros Ho i src c d Hin Hd Hf. destruct (Hflags Ho) as [Ea Ep].
+  destruct (prepare_facts _ _ _ Hprep) as (_ & _ & (ni & Hi) & _ & _).
+  destruct init2_shape as (_ & Si).
+  set (f := fun src0 => {| i_matches := match_instr indexed defs src0;
+                           i_enc := mk 0 (Some (Z.to_N (fold_left (fun a x => Z.max a (match match_static_size defs x with Some s => s | None => 0 end)) (match_instr indexed defs src0) 0))) |}) in *.
+  destruct (instr_aligned2 f ns i src c Hin) as (j & H1 & H2 & H3). rewrite Hi in H1. apply nth_error_seq_inv' in H1. cbn in H1. subst j.
+  rewrite <- Si in H2. rewrite Hd in H2. inversion H2; subst d. cbn [i_matches].
+  unfold K, known_info2 in Hf. cbn [k_instr k_sym] in Hf. unfold flag in Hf.
+  rewrite nth_error_map in Hf. fold ictx in H3. rewrite (nth_error_combine _ _ _ _ _ Hd H3) in Hf. cbn [option_map fst snd i_matches] in Hf.
+  rewrite Ea, Ep in Hf. split; [exact Hf|].
+  apply forallb_forall. intros x Hx. eapply MatcherKindP.matcher_kinded; [exact (Hpats Ho)|exact Hx].
+Qed.
+
+Lemma pinv0_2 : PInv2 ns opt (init_sstate st0).
+Proof.
+  split; cbn [init_sstate fz_sym ss].
+  - intros s F. rewrite flag_repeat_false in F. discriminate.
+  - apply repeat_length.
+Qed.
+
+Lemma prepass2 :
+  match simple_loop2 (S (length ns)) m ns st0 0 with
+  | EErr => simple_loop2S (S (length ns)) m K opt ns (init_sstate st0) 0 = EErr
+  | EOk st1 => exists x1, simple_loop2S (S (length ns)) m K opt ns (init_sstate st0) 0 = EOk x1 /\ ss x1 = st1 /\
+                          Inv2 m defs max_bits ns K opt x1 /\ labels_ok2 ns st1
+  end.
+Proof.
+  destruct (prepare_facts _ _ _ Hprep) as ((Ns & Ni & Nd) & Hrange & _ & _ & _).
+  pose proof (pre_sim2 m ns K opt HKsym2 Hasm (fun _ => Ns) (S (length ns)) (init_sstate st0) 0%nat pinv0_2) as H.
+  cbn [ss init_sstate] in H.
+  destruct (simple_loop2 (S (length ns)) m ns st0 0) as [st1|] eqn:E; [|exact H].
+  destruct H as (x1 & H1 & H2 & [P1 P2] & H4 & H5). exists x1. split; [exact H1|]. split; [exact H2|].
+  pose proof (prepare_distinct _ _ _ Hprep) as Hdist.
+  assert (Hl : labels_ok2 ns st1).
+  { eapply simple_loop2_labels_ok; [exact Hdist| |exact E]. eapply init2_labels_ok; exact Hinit. }
+  split; [|exact Hl].
+  assert (Q : (opt = true -> good2 ns st1) /\ s_instr st1 = s_instr st0 /\ s_data st1 = s_data st0).
+  { clear H1 H2 P1 P2 H4 H5 Hl x1.
+    assert (Gn : forall fuel st prev st', simple_loop2 fuel m ns st prev = EOk st' ->
+                length (s_sym st) = length (Symbols.m_decls m) ->
+                (opt = true -> good2 ns st \/ (1 <= fuel)%nat) ->
+                (opt = true -> good2 ns st') /\ s_instr st' = s_instr st /\ s_data st' = s_data st).
+    { induction fuel as [|f IH]; intros st prev st' Hs HL Hg; cbn [simple_loop2] in Hs.
+      - inversion Hs; subst. split; [|auto]. intro Ho. destruct (Hg Ho) as [Hgo|Hf]; [exact Hgo|lia].
+      - rewrite simple_round2_go in Hs. destruct (sr2_go m ns st 0) as [[sta c]|] eqn:Er; [|discriminate].
+        destruct (sr2_go_shape m ns st 0%nat sta c Er) as (S1 & S2 & S3).
+        assert (R1 : opt = true -> good2 ns sta).
+        { intro Ho. apply (sr2_go_good m ns [] st 0%nat sta c Er).
+          - intros s d0 e c0 [].
+          - exact Ns.
+          - intros s Hs'. rewrite HL. exact (Hrange s Hs').
+          - exact (Hasm Ho). }
+        destruct (Nat.eqb c prev).
+        + inversion Hs; subst. auto.
+        + destruct (IH sta c st' Hs) as (I1 & I2 & I3); [congruence|intro Ho; left; exact (R1 Ho)|].
+          split; [exact I1|]. split; congruence. }
+    apply (Gn _ _ _ _ E); [rewrite (proj1 init2_shape); apply repeat_length|]. intros _. right. lia. }
+  destruct Q as (Q1 & Q2 & Q3). subst st1.
+  split; [|split; [|split; [|split]]].
+  - intro Ho. split; [exact (Q1 Ho)|]. eapply kinstr2_same; [exact Q2|exact (kinstr0_2 Ho)].
+  - intros i F. rewrite H4 in F. cbn [init_sstate fz_instr] in F. rewrite flag_repeat_false in F. discriminate.
+  - intros d F. rewrite H5 in F. cbn [init_sstate fz_data] in F. rewrite flag_repeat_false in F. discriminate.
+  - intros s F. destruct (P1 s F) as [Ho (d0 & e & c & v & c' & G1 & G2 & _)]. split; [exact Ho|]. eauto.
+  - unfold lens. rewrite H4, H5. cbn [init_sstate fz_instr fz_data]. rewrite !repeat_length, Q2, Q3. split; [exact P2|split; reflexivity].
+Qed.
+End Runs2.
